@@ -70,11 +70,11 @@ def handle (st : St) (j : Json) : St × Json :=
   | [Json.str "exit"] => ev st .exit
   | [Json.str "wb", Json.arr ks] => ev st (.writeback (ks.toList.map jStr))
   | [Json.str "kill"] => ev st .kill
-  | [Json.str "cfg", Json.str lo, Json.bool atArg] =>
+  | [Json.str "cfg", Json.str lo, Json.bool atArg, Json.bool openAtArg] =>
     -- the open path under another configuration (fapl probes of the harness): lower libver bound, create at
     -- the named path
     match libver? lo with
-    | some l => ({ st with cfg := ⟨l, atArg⟩ }, ok Json.null)
+    | some l => ({ st with cfg := ⟨l, atArg, openAtArg⟩ }, ok Json.null)
     | none => (st, bad "C17: unknown libver")
   | [Json.str "decide", Json.str ps, Json.str m] =>
     -- File.__init__'s decision for a path state and a mode (no state change)
@@ -103,7 +103,8 @@ def handle (st : St) (j : Json) : St × Json :=
                          ("exit", pj Gen.fileExitBody),
                          ("fapl_low", Json.str (libverName Gen.cfg.low)),
                          ("fapl_modelled", Json.bool (faplModelled Gen.faplCalls)),
-                         ("create_at_arg", Json.bool Gen.cfg.createAtArg)]))
+                         ("create_at_arg", Json.bool Gen.cfg.createAtArg),
+                         ("open_at_arg", Json.bool Gen.cfg.openAtArg)]))
   | _ => (st, bad "C17: unknown op")
 
 def main : IO Unit := loop St.init handle
